@@ -4,12 +4,14 @@ import (
 	"crypto/sha256"
 	"encoding/hex"
 	"fmt"
+	"math"
 	"math/rand"
 	"sort"
 	"strconv"
 	"strings"
 	"time"
 
+	"github.com/btcsuite/btcd/blockchain"
 	"github.com/btcsuite/btcd/chaincfg"
 	"github.com/btcsuite/btcd/chaincfg/chainhash"
 	"github.com/btcsuite/btcd/wire"
@@ -26,8 +28,9 @@ var t0 = time.Unix(1700000000, 0)
 // txUniverse: a fixed family of transactions derived from the history seed.  tx i spends either an outside
 // outpoint or outputs of earlier transactions; `ours[j]` marks outputs that the history credits to the wallet.
 type txInfo struct {
-	rec  *wtxmgr.TxRecord
-	ours []bool
+	rec      *wtxmgr.TxRecord
+	ours     []bool
+	coinbase bool // a block reward: single null-outpoint input; only ever recorded as mined
 }
 
 type txWorld struct {
@@ -59,10 +62,20 @@ func newTxUniverse(seed int64) []*txInfo {
 		idx uint32
 	}
 	var ourOuts []outRef
+	// coinbase transactions (Store.rollback deletes them instead of moving them to the unmined bucket): one at a
+	// fixed early position (so that later transactions can spend its outputs: spent and unspent coinbase credits)
+	// and each other position with probability 1/5
+	cbAt := rng.Intn(4)
 	for i := 0; i < txUniverseSize; i++ {
 		m := wire.NewMsgTx(2)
 		nIn := 1 + rng.Intn(2)
 		used := map[outRef]bool{}
+		isCB := i == cbAt || rng.Intn(5) == 0
+		if isCB {
+			nIn = 0
+			m.AddTxIn(wire.NewTxIn(wire.NewOutPoint(&chainhash.Hash{}, math.MaxUint32),
+				[]byte{0x03, byte(i), byte(seed), byte(seed >> 8), byte(seed >> 16)}, nil))
+		}
 		for j := 0; j < nIn; j++ {
 			if len(ourOuts) > 0 && rng.Intn(3) != 0 {
 				// spend one of our earlier outputs (possibly one that another tx also spends: conflict)
@@ -93,7 +106,10 @@ func newTxUniverse(seed int64) []*txInfo {
 		if err != nil {
 			panic(err)
 		}
-		txs = append(txs, &txInfo{rec: rec, ours: ours})
+		if isCB != blockchain.IsCoinBaseTx(&rec.MsgTx) {
+			panic("faultops: coinbase construction")
+		}
+		txs = append(txs, &txInfo{rec: rec, ours: ours, coinbase: isCB})
 		for j := 0; j < nOut; j++ {
 			if ours[j] {
 				ourOuts = append(ourOuts, outRef{i, uint32(j)})
@@ -200,13 +216,40 @@ func lockID(n int) wtxmgr.LockID {
 // ---- history
 
 func (w *txWorld) buildHistory(rng *rand.Rand, n int) {
+	if n > 0 && w.seed%2 == 0 {
+		// every second non-empty history starts as a mining wallet: the first coinbase of the universe is recorded
+		// in block 1 with all its wallet credits (the random steps below may spend, confirm on top of, or detach it)
+		for _, t := range w.txs {
+			if !t.coinbase {
+				continue
+			}
+			bm := blockMeta(1)
+			w.top = 1
+			_ = w.update(func(ns walletdb.ReadWriteBucket) error {
+				if err := w.store.InsertTx(ns, t.rec, bm); err != nil {
+					return err
+				}
+				credited := false
+				for j, o := range t.ours {
+					if o || (j == len(t.ours)-1 && !credited) {
+						credited = true
+						if err := w.store.AddCredit(ns, t.rec, bm, uint32(j), false); err != nil {
+							return err
+						}
+					}
+				}
+				return nil
+			})
+			break
+		}
+	}
 	for step := 0; step < n; step++ {
 		i := rng.Intn(len(w.txs))
 		t := w.txs[i]
 		switch r := rng.Intn(20); {
 		case r < 11: // insert (mined or not) + credits
 			var bm *wtxmgr.BlockMeta
-			if rng.Intn(3) != 0 {
+			if rng.Intn(3) != 0 || t.coinbase {
 				h := w.top + int32(rng.Intn(2))
 				if h < 1 {
 					h = 1
@@ -292,6 +335,12 @@ func (w *txWorld) targets(rng *rand.Rand, tier string) []string {
 	for i, t := range w.txs {
 		bm, present := w.blockOf(i)
 		switch {
+		case !present && t.coinbase:
+			// a coinbase only exists inside a block
+			all = append(all, fmt.Sprintf("InsertTx/t:%d/h:%d", i, w.top+1))
+			if w.top > 0 {
+				all = append(all, fmt.Sprintf("InsertTx/t:%d/h:%d", i, w.top))
+			}
 		case !present:
 			all = append(all, fmt.Sprintf("InsertTx/t:%d/h:-1", i), fmt.Sprintf("InsertTx/t:%d/h:%d", i, w.top+1))
 			if w.top > 0 {
@@ -314,7 +363,52 @@ func (w *txWorld) targets(rng *rand.Rand, tier string) []string {
 		all = append(all, fmt.Sprintf("Rollback/h:%d", h))
 	}
 	all = append(all, "DeleteExpiredLockedOutputs")
-	return pickTargets(rng, all, tier)
+	out := pickTargets(rng, all, tier)
+	// always: detach the block of a mined coinbase that has wallet credits (the coinbase branch of Store.rollback:
+	// credits deleted, not moved to unmined), preferring one with a still unspent credit; at most 2 per state
+	forced := 0
+	for pass := 0; pass < 2 && forced < 2; pass++ {
+		for i, t := range w.txs {
+			if !t.coinbase || forced >= 2 {
+				continue
+			}
+			bm, _ := w.blockOf(i)
+			if bm == nil {
+				continue
+			}
+			nCred, nUnspent := w.creditsOf(i)
+			if nCred == 0 || (pass == 0) != (nUnspent > 0) {
+				continue
+			}
+			d := fmt.Sprintf("Rollback/h:%d", bm.Height)
+			dup := false
+			for _, x := range out {
+				dup = dup || x == d
+			}
+			if !dup {
+				out = append(out, d)
+			}
+			forced++
+		}
+	}
+	return out
+}
+
+// creditsOf: number of wallet credits the store records for tx i, and how many of them are unspent.
+func (w *txWorld) creditsOf(i int) (n, unspent int) {
+	_ = w.view(func(ns walletdb.ReadBucket) error {
+		d, err := w.store.TxDetails(ns, &w.txs[i].rec.Hash)
+		if err == nil && d != nil {
+			for _, c := range d.Credits {
+				n++
+				if !c.Spent {
+					unspent++
+				}
+			}
+		}
+		return nil
+	})
+	return
 }
 
 // pickTargets keeps, in the quick tier, at most 2 random descriptors per operation name.
@@ -414,6 +508,9 @@ func (w *txWorld) observeStore(s *wtxmgr.Store) []string {
 			b, err := s.Balance(ns, mc, sync)
 			out = append(out, fmt.Sprintf("balance(%d)=%d/%v", mc, int64(b), err != nil))
 		}
+		// all coinbase credits mature (SimNet maturity 100): immature ones are excluded above
+		bm, err := s.Balance(ns, 1, sync+int32(chaincfg.SimNetParams.CoinbaseMaturity)+1)
+		out = append(out, fmt.Sprintf("balance(1,mature)=%d/%v", int64(bm), err != nil))
 		utx, err := s.UnspentOutputs(ns)
 		var l []string
 		for _, c := range utx {
@@ -421,6 +518,15 @@ func (w *txWorld) observeStore(s *wtxmgr.Store) []string {
 		}
 		sort.Strings(l)
 		out = append(out, fmt.Sprintf("utxos=%s/%v", strings.Join(l, ","), err != nil))
+		// an error of UnspentOutputs / OutputsToWatch (e.g. an unspent-index entry whose transaction is gone) is a
+		// difference like any other
+		wtx, err := s.OutputsToWatch(ns)
+		l = nil
+		for _, c := range wtx {
+			l = append(l, fmt.Sprintf("%s:%d:%d@%d", c.Hash.String()[:8], c.Index, int64(c.Amount), c.Height))
+		}
+		sort.Strings(l)
+		out = append(out, fmt.Sprintf("watch=%s/%v", strings.Join(l, ","), err != nil))
 		hs, err := s.UnminedTxHashes(ns)
 		l = nil
 		for _, h := range hs {
